@@ -4,9 +4,11 @@ import json, os, shutil, subprocess, sys, time, fcntl, hashlib, contextlib, thre
 VERIF = os.path.dirname(os.path.dirname(os.path.abspath(__file__)))
 REPO = os.environ.get("VERIF_REPO", "/repo")
 SPEC = os.path.join(VERIF, "spec")
-WORK = os.path.join(VERIF, "work")
-BUILD = os.path.join(VERIF, "build")
-EVID = os.path.join(VERIF, "evidence")
+# VERIF_REPO / VERIF_BUILD / VERIF_WORK / VERIF_EVID let a developer point the machinery at a scratch copy of the
+# repository (mutation experiments) without touching /repo or the registered evidence; MANIFEST commands never set them.
+WORK = os.environ.get("VERIF_WORK", os.path.join(VERIF, "work"))
+BUILD = os.environ.get("VERIF_BUILD", os.path.join(VERIF, "build"))
+EVID = os.environ.get("VERIF_EVID", os.path.join(VERIF, "evidence"))
 HARNESS = os.path.join(VERIF, "harness")
 NCPU = os.cpu_count() or 4
 
